@@ -72,6 +72,11 @@ func Standard(n int, seed int64) *Universe {
 	for i := range chunk {
 		chunk[i] = byte((int64(i)*7 + seed) % 251)
 	}
+	// a legal blob well above the 1 MiB chunk size (blobs may be up to 16 MiB)
+	big := make([]byte, 1<<20+4099)
+	for i := range big {
+		big[i] = byte((int64(i)*13 + seed*7) % 253)
+	}
 	all := []Spec{
 		{"sha224", []byte{}, "empty"},
 		{"sha224", []byte{byte('a' + seed%20)}, "one"},
@@ -79,7 +84,7 @@ func Standard(n int, seed int64) *Universe {
 		{"sha224", []byte(fmt.Sprintf(`{"camliVersion": 1, "camliType": "bytes", "parts": [], "x": %d}`, seed)), "schema"},
 		{"sha256", []byte(fmt.Sprintf("small-sha256-%d", seed)), "small"},
 		{"sha224", chunk, "chunk"},
-		{"sha224", []byte(fmt.Sprintf("small-sha224-%d", seed)), "small"},
+		{"sha224", big, "big"},
 		{"sha1", []byte(fmt.Sprintf(`{"camliVersion": 1, "camliType": "file", "fileName": "f%d", "parts": []}`, seed)), "schema"},
 	}
 	for i := 0; i < n; i++ {
